@@ -186,7 +186,7 @@ fn exec_raw(st: &mut State, name: &str, t: &[&str]) -> String {
         "clear" => { v.clear(); raw_state(v) },
         "reserve" => { v.reserve(parse_usize(t[1])); raw_state(v) },
         "state" => raw_state(v),
-        "ser" => words_to_string(&ser_words(v)),
+        "ser" | "doc" => words_to_string(&ser_words(v)),
         _ => panic!("harness: unknown raw op {}", t[0]),
     }
 }
@@ -248,7 +248,7 @@ fn exec_iv(st: &mut State, name: &str, t: &[&str]) -> String {
         "state" => iv_state(v),
         "items" => { let xs: Vec<u64> = v.iter().collect(); words_to_string(&xs) },
         "into_iter" => { let xs: Vec<u64> = v.clone().into_iter().collect(); words_to_string(&xs) },
-        "ser" => words_to_string(&ser_words(v)),
+        "ser" | "doc" => words_to_string(&ser_words(v)),
         // iterator call history: it <call>*  with call ∈ n (next) b (next_back) N<k> (nth k) B<k> (nth_back k) l (len)
         "it" => {
             let mut it = v.iter();
